@@ -25,7 +25,7 @@ DM0, P0 = 30.0, 0.1
 
 
 def REQUIRED(tier):
-    return ["histories", "hook_checks", "rotation_checks", "law:repeat_noop", "law:return_restores", "law:history_independence", "ops:update_dm", "ops:update_period", "shape:single_subband", "shape:single_subint"]
+    return ["histories", "hook_checks", "rotation_checks", "law:repeat_noop", "law:return_restores", "law:history_independence", "ops:update_dm", "ops:update_period", "shape:single_subband", "shape:single_subint", "layout:F", "layout:transposed_view", "layout:strided_view"]
 
 
 def EXHAUSTIVE(tier):
@@ -46,7 +46,12 @@ def cases(tier, seed):
                 yield {"kind": "lattice", "shape": si, "L": L, "prefix": [first, second]}
     rng = np.random.default_rng([seed, 1717])
     for k in range(100 if tier == "quick" else 2000):
-        yield {"kind": "random", "shape": int(rng.integers(0, 3)), "hseed": int(seed) * 100003 + k, "len": 50}
+        yield {"kind": "random", "shape": int(rng.integers(0, 3)), "hseed": int(seed) * 100003 + k, "len": 50, "layout": LAYOUTS[k % 4]}
+    for si in range(len(SHAPES)):      # the length-2 lattice again on non-contiguous cubes
+        for lay in LAYOUTS[1:]:
+            for first in range(len(A)):
+                for second in range(len(A)):
+                    yield {"kind": "lattice", "shape": si, "L": 2, "prefix": [first, second], "layout": lay}
 
 
 def _hdr():
@@ -55,12 +60,30 @@ def _hdr():
     return Header(filename="x.fil", data_type="filterbank", nchans=64, foff=-1.0, fch1=400.0, nbits=8, tsamp=1e-3, tstart=58000.0, nsamples=100000)
 
 
+LAYOUTS = ("C", "F", "transposed_view", "strided_view")
+_layout = {"cur": "C"}
+
+
 def _cube(shape):
+    """Cube filled with distinct values, in the memory layout selected for the current case (updates must act on the
+    cube the caller holds whatever its strides)."""
     from sigpyproc.foldedcube import FoldedData
 
     nint, nband, nbins = shape
     base = (np.arange(nint * nband * nbins, dtype=np.float32).reshape(shape) * 3 + 1)
-    return FoldedData(base.copy(), _hdr(), P0, DM0), base
+    lay = _layout["cur"]
+    src = base.copy()   # never alias the oracle's copy (numpy returns views when a layout conversion is a no-op)
+    if lay == "C":
+        arr = src
+    elif lay == "F":
+        arr = np.array(src, order="F", copy=True)
+    elif lay == "transposed_view":
+        arr = np.array(src.transpose(1, 0, 2), order="C", copy=True).transpose(1, 0, 2)
+    else:
+        big = np.zeros((nint * 2, nband, nbins), dtype=np.float32)
+        big[::2] = base
+        arr = big[::2]
+    return FoldedData(arr, _hdr(), P0, DM0), base
 
 
 def _acceptable(v):
@@ -174,6 +197,8 @@ def run_history(ctx, shape, ops, rec):
 
 
 def run_case(case, ctx):
+    _layout["cur"] = case.get("layout", "C")
+    ctx.count(f"layout:{_layout['cur']}")
     shape = SHAPES[case["shape"]]
     if shape[1] == 1:
         ctx.count("shape:single_subband")
@@ -191,11 +216,11 @@ def run_case(case, ctx):
                 ops = pre + [A[i] for i in tail]
                 if ln == 0 and case["prefix"][1] != 0:
                     pass
-                rec = {"kind": "history", "shape": case["shape"], "ops": [list(o) for o in ops]}
+                rec = {"kind": "history", "shape": case["shape"], "ops": [list(o) for o in ops], "layout": _layout["cur"]}
                 run_history(ctx, shape, ops, rec)
         # histories of length 1 are covered when the two prefix ops are equal targets (repeat law)
         if case["prefix"][1] == 0:
-            rec = {"kind": "history", "shape": case["shape"], "ops": [list(pre[0])]}
+            rec = {"kind": "history", "shape": case["shape"], "ops": [list(pre[0])], "layout": _layout["cur"]}
             run_history(ctx, shape, pre[:1], rec)
         ctx.sample({"shape": list(shape), "prefix": [list(p) for p in pre], "depth_bound": L})
         return
@@ -206,6 +231,6 @@ def run_case(case, ctx):
             ops.append(("dm", float(rng.choice([DM0, DM0 + float(rng.integers(-40, 41)), DM0 + float(rng.uniform(-40, 40)), DM0 + float(rng.uniform(-3000, 3000))]))))
         else:
             ops.append(("p", float(P0 * (1 + rng.choice([0.0, float(rng.uniform(-1e-3, 1e-3)), 1e-4, -1e-4, float(rng.uniform(-2e-5, 2e-5)), float(rng.uniform(-5e-3, 5e-3))])))))
-    rec = {"kind": "history", "shape": case["shape"], "ops": [list(o) for o in ops]}
+    rec = {"kind": "history", "shape": case["shape"], "ops": [list(o) for o in ops], "layout": _layout["cur"]}
     if run_history(ctx, shape, ops, rec) and case["hseed"] % 25 == 0:
         ctx.sample({"shape": list(shape), "random_history_head": [list(o) for o in ops[:6]], "length": len(ops)})
